@@ -54,8 +54,12 @@ func (g *Generator) FuncToString(f *model.Function) string {
 		sb.WriteString(f.Src.FullType())
 	}
 
-	for _, args := range f.AdditionalArgs {
-		sb.WriteString(", ")
+	for i, args := range f.AdditionalArgs {
+		if 0 < i || f.Receiver == "" || f.DstVarStyle == model.DstVarArg {
+			// A parameter precedes this one unless the source is the receiver
+			// and the destination is a return value.
+			sb.WriteString(", ")
+		}
 		sb.WriteString(args.Name)
 		sb.WriteString(" ")
 		sb.WriteString(args.FullType())
